@@ -396,8 +396,19 @@ func sparseSections(r *vlib.Run) {
 		rng := c.Rng
 		sys := genSparseSPD(rng, maxN)
 		n := sys.n
+		// the same system in other units: every entry times a power of two (conditioning,
+		// sparsity and every rounding are unchanged, so all clauses are scale-relative)
+		aScale := 1.0
+		if rng.Intn(2) == 0 {
+			aScale = math.Ldexp(1, rng.Intn(241)-120)
+			for e, v := range sys.entries {
+				sys.entries[e] = v * aScale
+			}
+			sys.kind += "*2^k"
+			c.Count("cholesky.systems_in_other_units", 1)
+		}
 		mat := sys.matrix()
-		w := map[string]interface{}{"n": n, "kind": sys.kind, "cond_bound": sys.cond, "entries_in_insertion_order": fmt.Sprint(sys.order), "subseed": c.SubSeed}
+		w := map[string]interface{}{"n": n, "kind": sys.kind, "entries_scaled_by": aScale, "cond_bound": sys.cond, "entries_in_insertion_order": fmt.Sprint(sys.order), "subseed": c.SubSeed}
 		if n <= 12 {
 			vals := make([]string, len(sys.order))
 			for i, e := range sys.order {
@@ -417,7 +428,7 @@ func sparseSections(r *vlib.Run) {
 			xv[i] = x[i][0]
 		}
 		ax := sys.apply(x)
-		tolMul := 1e-13 * float64(len(sys.adj)+4) * (1 + maxAbs3(ax))
+		tolMul := 1e-13 * float64(len(sys.adj)+4) * (aScale*(1+maxAbs3(x)) + maxAbs3(ax))
 
 		// SparseMatrix.Apply / ApplyVec2 / ApplyVec3 / Transpose / Iterate
 		g3 := mat.ApplyVec3(xv3)
@@ -501,7 +512,7 @@ func sparseSections(r *vlib.Run) {
 				e2 = math.Max(e2, nanInf(math.Abs(c2[i][k]-ax[i][k])))
 			}
 		}
-		scaleAx := 1 + maxAbs3(ax)
+		scaleAx := aScale + maxAbs3(ax)
 		cmax(c, "cholesky.apply_error_over_bound", math.Max(e3, e2)/(tol*scaleAx))
 		if !(e3 <= tol*scaleAx) {
 			c.Violationf("numerical.SparseCholesky.ApplyVec3/product", w, "L L^T x differs from A x by %g (tolerance %g)", e3, tol*scaleAx)
@@ -587,6 +598,15 @@ func sparseSections(r *vlib.Run) {
 			d := 2*math.Max(rowAbs[i], colAbs[i]) + 0.5 + rng.Float64()
 			ents = append(ents, ent{i, i, sign * d})
 		}
+		// the operator in other units (b keeps its magnitude, so the tolerances, which are in
+		// units of b, mean the same)
+		opScale := 1.0
+		if rng.Intn(3) == 0 {
+			opScale = math.Ldexp(1, rng.Intn(121)-60)
+			for i := range ents {
+				ents[i].v *= opScale
+			}
+		}
 		nOps := 0
 		op := func(v numerical.Vec) numerical.Vec {
 			nOps++
@@ -604,7 +624,7 @@ func sparseSections(r *vlib.Run) {
 		if rng.Intn(2) == 0 {
 			guess = make(numerical.Vec, n)
 			for i := range guess {
-				guess[i] = rng.NormFloat64()
+				guess[i] = rng.NormFloat64() / opScale // a guess of the solution's magnitude
 			}
 		}
 		solver := &numerical.BiCGSTABSolver{}
@@ -623,7 +643,7 @@ func sparseSections(r *vlib.Run) {
 		if bounded {
 			solver.MaxIters = 400
 		}
-		w := map[string]interface{}{"n": n, "entries": fmt.Sprint(ents), "b": b, "guess": guess, "solver": *solver}
+		w := map[string]interface{}{"n": n, "entries": fmt.Sprint(ents), "operator_scaled_by": opScale, "b": b, "guess": guess, "solver": *solver}
 		// a private copy: the residual below must not depend on the solver
 		// having modified its inputs
 		bCopy := append(numerical.Vec{}, b...)
